@@ -118,6 +118,12 @@ func checkC07(c *Case, s *Stats) error {
 			if e == nil {
 				return viol("truncated-accepted", "%s succeeded", what)
 			}
+			if cut%5 == 0 {
+				// the same interrupted stream offered again
+				if e2 := inst.Unmarshal(append([]byte{}, stream[:cut]...)); e2 == nil {
+					return viol("truncated-accepted", "%s was rejected the first time and accepted when offered again", what)
+				}
+			}
 			return nil
 		})
 		if err != nil {
@@ -214,6 +220,21 @@ func checkC07Version(c *Case, s *Stats) error {
 		}
 		if !isIncompatibleErr(loadErr) {
 			return viol("wrong-error", "%s failed with %v, which is not ErrIncompatible", what, loadErr)
+		}
+		// a retrying loader offers the same stream again: it must be rejected again
+		var again error
+		err = guard("second "+what, func() error {
+			again = inst.Unmarshal(append([]byte{}, mod...))
+			return nil
+		})
+		if err != nil {
+			return err
+		}
+		if again == nil {
+			return viol("incompatible-accepted", "%s was rejected the first time and ACCEPTED when offered again", what)
+		}
+		if !isIncompatibleErr(again) {
+			return viol("wrong-error", "%s, offered a second time, failed with %v, which is not ErrIncompatible", what, again)
 		}
 		qs := append(append([]string{}, okeys...), c.keys()...)
 		if len(qs) > 60 {
